@@ -268,7 +268,8 @@ def gen_c10(rng: random.Random, tier: str) -> Plan:
         elif r < 0.91:
             ops.append({"op": "recompile", "target": rng.choice(m.names)})
         elif r < 0.94:
-            ops.append({"op": "mode", "target": rng.choice(m.names), "train": rng.random() < 0.4})
+            ops.append({"op": "mode", "target": rng.choice(m.names), "train": rng.random() < 0.4,
+                        "grad": rng.choice([None, "no_grad", "inference", "enabled"])})
         else:
             ops.append({"op": "eval", "target": rng.choice(m.names),
                         "batch": rng.choice([1, 2, 4, 7, 7, 257, 1025]), "seed": _seed(rng)})
@@ -640,7 +641,8 @@ def gen_c19(rng: random.Random, tier: str) -> Plan:
             if d is not None:
                 ops.append(d)
         elif r < 0.96:
-            ops.append({"op": "mode", "target": rng.choice(m.names), "train": rng.random() < 0.4})
+            ops.append({"op": "mode", "target": rng.choice(m.names), "train": rng.random() < 0.4,
+                        "grad": rng.choice([None, "no_grad", "inference", "enabled"])})
         elif r < 0.98:
             ops.append({"op": "foreign_compile", "target": rng.choice(m.names), "seed": _seed(rng),
                         "flags": {"fold": rng.random() < 0.5, "optimize": rng.random() < 0.5}})
